@@ -87,11 +87,13 @@ class Obligation:
             if res.status == "unsat":
                 self.solver, self.time_s, self.status = res.solver + "(pointwise)", res.time_s, "discharged"
                 return self.status
-        if self.goal is False:
-            # reachability of a forbidden exit: pc must be unsatisfiable
-            res = smt.check_sat(self.pc, timeout_ms=timeout_ms, seed=seed)
-        else:
-            res = smt.check_sat(self.pc + [z3.Not(self.goal)], timeout_ms=timeout_ms, seed=seed)
+        fs = self.pc if self.goal is False else self.pc + [z3.Not(self.goal)]
+        res = smt.check_sat(fs, timeout_ms=timeout_ms, seed=seed)
+        tries = 0
+        while res.status == "unknown" and tries < 2:
+            # solver instability guard: a different seed and a larger budget before giving up
+            tries += 1
+            res = smt.check_sat(fs, timeout_ms=timeout_ms * 2, seed=seed + 7919 * tries, use_cvc5=False)
         self.solver, self.time_s, self.reason = res.solver, res.time_s, res.reason
         if res.status == "unsat":
             self.status = "discharged"
